@@ -327,7 +327,49 @@ class NPShim:
         return self._r.count_nonzero(a, **kw)
 
 
+class NPShimObj(NPShim):
+    """variant for modules that allocate result arrays before filling them with proxies (hypervolume / HSSP):
+    float allocations become object arrays"""
+
+    def empty(self, shape, dtype=None, **kw):
+        if dtype in (int, bool, _np.int64, _np.bool_):
+            return self._r.empty(shape, dtype=dtype)
+        return self._r.empty(shape, dtype=object)
+
+    def zeros(self, shape, dtype=None, **kw):
+        if dtype in (int, bool, _np.int64, _np.bool_):
+            return self._r.zeros(shape, dtype=dtype)
+        a = self._r.empty(shape, dtype=object)
+        a.fill(0.0)
+        return a
+
+    def isnan(self, a):
+        if isinstance(a, _np.ndarray) and a.dtype == object:
+            return self._r.array([_isnan(x) for x in a.ravel()], dtype=bool).reshape(a.shape)
+        return super().isnan(a)
+
+    def max(self, a, initial=None, **kw):
+        if _has_sym(a):
+            xs = list(self._r.asarray(a, dtype=object).ravel())
+            m = initial
+            for x in xs:
+                if m is None or x > m:
+                    m = x
+            return m
+        if initial is not None:
+            return self._r.max(a, initial=initial, **kw)
+        return self._r.max(a, **kw)
+
+    def logical_and(self, a, b):
+        if _has_sym(a) or _has_sym(b):
+            a = self._r.asarray(a, dtype=object)
+            b = self._r.asarray(b, dtype=object)
+            return self._r.array([bool(x) and bool(y) for x, y in zip(a.ravel(), b.ravel())], dtype=bool).reshape(a.shape)
+        return self._r.logical_and(a, b)
+
+
 npshim = NPShim()
+npshim_obj = NPShimObj()
 
 
 def validate():
